@@ -36,6 +36,7 @@ fn dispatch(req: &Req) -> R<String> {
 		"std" => distr::std(req),
 		"enum" => enumr::enumerate(req),
 		"enum32" => enumr::enum32(req),
+		"bigshuf" => enumr::bigshuf(req),
 		"stat" => stat::stat(req),
 		"statd" => stat::statd(req),
 		"chacha" => chacha::chacha(req),
